@@ -11,7 +11,16 @@ FewArgKinds == {"float", "bool", "str", "bytes", "none", "iA", "iB", "kA", "iC"}
 Cats1 == CatSet
 Cats2 == {"u8", "i32", "u32", "i64", "f64", "bool", "str", "rA", "cA", "cB"}
 Cats3 == {"u8", "i32", "f64", "bool", "str", "cA", "rB"}
-NoFix == {}
+Cats4 == {"i8", "i32", "u64", "f64", "bool", "str", "rA", "cA", "rB"}
+Cats5 == {"u8", "i32", "f64", "bool", "str", "cA", "rB"}
+Cats6 == {"u8", "f64", "str", "cA"}
+Cats8 == {"u8", "i32", "i64", "f64", "bool", "str", "rA", "cB"}
+Cats7 == {"i16", "u32", "f32", "bool", "rA", "cB"}
+TinyIntVals == {7, 10, 15, 21, 27}
+PairArgKinds == {"float", "bool", "str", "bytes", "none", "iA", "iB", "kA", "iC"}
+\* fixes present in the tree under test (the check looks for them in the source and tells TLC)
+NoFix == (IF "VERIF_FIX_INTERR" \in DOMAIN IOEnv THEN {"int-error-ignored"} ELSE {})
+         \cup (IF "VERIF_FIX_EXTRA" \in DOMAIN IOEnv THEN {"extra-args"} ELSE {})
 
 DumpFile == IF "VERIF_DUMP" \in DOMAIN IOEnv THEN IOEnv.VERIF_DUMP ELSE ""
 
